@@ -8,7 +8,8 @@ EXACT = ["DU 0 0 0 0 0 1", "DU 0 0 0 0 1 0", "DU 0 0 0 1 0 0", "DU 0 0 0 6 0 0",
          "DU 0 0 0 0 0 86400", "DU 0 0 0 36 0 0", "DU 0 0 1 -1 0 0", "DU 0 0 0 0 90 0", "DU 0 0 7 0 0 1",
          "DU 0 0 30 0 0 0", "DU 0 0 365 0 0 0", "DU 0 0 0 0 0 3599", "DU 0 0 2 12 30 30"]
 NOMINAL = ["DU 0 1 0 0 0 0", "DU 1 0 0 0 0 0", "DU 0 1 1 0 0 0", "DU 0 1 2 0 0 0", "DU 1 1 0 0 0 0", "DU 0 2 0 0 0 0",
-           "DU 0 13 0 0 0 0", "DU 1 0 1 0 0 0", "DU 0 1 0 12 0 0", "DU 4 0 0 0 0 0", "DU 0 1 -1 0 0 0"]
+           "DU 0 13 0 0 0 0", "DU 1 0 1 0 0 0", "DU 0 1 0 12 0 0", "DU 4 0 0 0 0 0", "DU 0 1 -1 0 0 0",
+           "DU 0 10 0 0 0 0", "DU 0 11 0 0 0 0", "DU 0 14 0 0 0 0", "DU 0 18 0 0 0 0", "DU 0 22 0 0 0 0", "DU 0 6 0 0 0 0"]
 ZERO = ["DU 0 0 0 0 0 0", "DU 0 0 1 -24 0 0"]
 REPS = [None, None, 1, 2, 2, 3, 3, 5, 12, 13, 40]
 
@@ -19,6 +20,20 @@ def dur_is_nominal(d):
 
 
 def rand_anchor(rng, md, month_end=False):
+    if month_end and rng.random() < 0.2:
+        # week and ordinal spellings of days around the turn of the year, where the week-year and the calendar year
+        # (and their leap status) differ: month arithmetic goes through the calendar date of such a point
+        from props.common import weeks_in, year_len
+        y = rng.choice([2003, 2004, 2005, 2008, 2009, 2012, 2013, 2016, 2020, 2021, 1900, 2000, 2100, rand_year(rng)])
+        z = rand_zone(rng)
+        k = rng.random()
+        if k < 0.4:
+            date = "W %d 1 %d" % (y, rng.randint(1, 4))
+        elif k < 0.7:
+            date = "W %d %d %d" % (y, weeks_in(md, y), rng.randint(4, 7))
+        else:
+            date = "O %d %d" % (y, rng.choice([1, 2, year_len(md, y), year_len(md, y) - 1, 59, 60]))
+        return "%s S %d %d 0 %d %d" % (date, rng.choice([0, 0, 12, 23]), rng.choice([0, 59]), z[0], z[1])
     if month_end and rng.random() < 0.6:
         y = rand_year(rng)
         m = rng.choice([1, 3, 5, 7, 8, 10, 12, 2])
